@@ -180,8 +180,25 @@ pub fn run(ctx: &Ctx) -> (Acc, String, bool) {
     let pair_total = nops * nops;
     let random_total: u64 = ctx.pick(400_000, 15_000_000);
     let seed = ctx.seed;
-    let acc = run_cases(ctx, ex_total + pair_total + random_total, |i, acc| {
-        if i < ex_total {
+    // the repository's own scripts, and every prefix of each (cut anywhere: inside tokens too)
+    let scripts: Vec<String> = {
+        let mut v = vec![];
+        for (_, text) in crate::corpus::repo_scripts() {
+            let idx: Vec<usize> = text.char_indices().map(|(i, _)| i).collect();
+            for c in idx.iter().skip(1) {
+                v.push(text[..*c].to_string());
+            }
+            v.push(text);
+        }
+        v
+    };
+    let script_total = scripts.len() as u64;
+    let acc = run_cases(ctx, ex_total + pair_total + random_total + script_total, |i, acc| {
+        if i >= ex_total + pair_total + random_total {
+            check(&scripts[(i - ex_total - pair_total - random_total) as usize], acc);
+            acc.nontrivial += 1;
+            acc.count("repo_script_prefixes");
+        } else if i < ex_total {
             let bi = offs.iter().rposition(|o| *o <= i).unwrap();
             let (a, l) = blocks[bi];
             let s = nth_string(a, l, i - offs[bi]);
@@ -220,7 +237,7 @@ pub fn run(ctx: &Ctx) -> (Acc, String, bool) {
         }
     });
     let rule = format!(
-        "exhaustive: every string over a 34-character alphabet (one representative per character class, quotes, backslash, newline, CR, tab, @, backtick, 2- and 4-byte characters, the invalid character §) up to length {}, over a 20-character alphabet at length {}, over a 12-character alphabet up to length {} ({} strings); every ordered pair of the 60 operator spellings in 4 contexts; {} random strings of 4..44 characters assembled from operators, identifiers, numbers, literals, blank runs and annotations. Each is lexed by the real lexer and by the reference scanner; judged: losslessness, no empty token, exact line/column of every token (inputs without CR/FF), token boundaries and types against longest match (blank runs merged, sub-expression iff two line breaks), and rejection of characters that start no token.",
+        "exhaustive: every string over a 34-character alphabet (one representative per character class, quotes, backslash, newline, CR, tab, @, backtick, 2- and 4-byte characters, the invalid character §) up to length {}, over a 20-character alphabet at length {}, over a 12-character alphabet up to length {} ({} strings); every ordered pair of the 60 operator spellings in 4 contexts; {} random strings of 4..44 characters assembled from operators, identifiers, numbers, literals, blank runs and annotations; every prefix of every script under the repository's tests/scripts. Each is lexed by the real lexer and by the reference scanner; judged: losslessness, no empty token, exact line/column of every token (inputs without CR/FF), token boundaries and types against longest match (blank runs merged, sub-expression iff two line breaks), and rejection of characters that start no token.",
         ctx.pick(3, 4),
         ctx.pick(4, 5),
         ctx.pick(5, 7),
